@@ -238,7 +238,7 @@ theorem PA_sclosed (c : Prop) (B : Nat → Nat) (now f pid r0 : Nat) :
     intro e h ⟨hb, ht, hl⟩
     exact ⟨Bnd_addObs B e _ hb, ht.addObs _ rfl, fun hc => (hl hc).addObs _⟩
   aux := by
-    intro e hookOf late lateAtt level ⟨hb, ht, hl⟩
+    intro e hookOf late lateAtt level hopsOf cur ⟨hb, ht, hl⟩
     exact ⟨⟨⟨hb.1.park, hb.1.specs, hb.1.held⟩, hb.2⟩, ⟨ht.onlyF, ht.contNow, ht.obsSame⟩,
       fun hc => (hl hc).frame rfl rfl rfl (Nat.le_refl _) rfl⟩
 
@@ -305,7 +305,7 @@ theorem segTerm_track (c : Prop) (B : Nat → Nat) (now f pid r0 : Nat) (e1 : Ef
     simp only [segTerm]
     -- (`clearLate` only rewrites the table of hooks added in flight: an instance of `aux`)
     have h2a : PA c B now f pid r0 ((e1.setProc pid0 { p1 with segs := [], done := true, hooks := [] }).clearLate pid0) :=
-      (PA_sclosed c B now f pid r0).aux _ _ _ _ _ (h.setProc pid0 { p1 with segs := [], done := true, hooks := [] } hne)
+      (PA_sclosed c B now f pid r0).aux _ _ _ _ _ _ _ (h.setProc pid0 { p1 with segs := [], done := true, hooks := [] } hne)
     have h2 := h2a.addObs (.finish now pid0) rfl
     have h3 := runHooks_s (PA_sclosed c B now f pid r0) (p1.hooks ++ lateOf e1.ps pid0) _ h2
     exact ⟨h3.2.1, h3.2.2⟩
@@ -325,6 +325,8 @@ theorem runSegment_track (c : Prop) (B : Nat → Nat) (now f pid r0 : Nat) (e : 
       unfold segBody
       have h0 : PA c B now f pid r0 (segStart now e pid0 tag p) := by
         unfold segStart
+        -- (`setCur` only writes the hop count the running handler reads: an instance of `aux`)
+        refine (PA_sclosed c B now f pid r0).aux _ _ _ _ _ _ _ ?_
         apply PA.setProc _ _ _ hne
         split
         · exact h.addObs _ (by simp [isRes, hne])
